@@ -158,7 +158,7 @@ class Tracer:
                 ev = dict(e="new", a=n, p=tr.qpos(atom), name=atom.name, res=_rid(res), fr=tr.frame_name(2),
                           rc=type(res).__name__, hv=not _is_h(atom), rec=getattr(atom, "type", ""))
                 if getattr(tr, "placement", False):
-                    ev["frs"] = tr.frame_names(2, 4)
+                    ev["frs"] = tr.frame_names(2, 7)
                     ev["fit"] = getattr(tr, "last_fit", None)
                     tr.last_fit = None
                     if ev["fit"]:
